@@ -88,6 +88,13 @@ func main() {
 				bs = append(bs, vh.Batch{Name: fmt.Sprintf("rand-%d", i), TimeoutS: 1200})
 			}
 			bs = append(bs, vh.Batch{Name: "nongrpc", TimeoutS: 600})
+			nlarge := 2
+			if tier == "thorough" {
+				nlarge = 6
+			}
+			for i := 0; i < nlarge; i++ {
+				bs = append(bs, vh.Batch{Name: fmt.Sprintf("large-%d", i), TimeoutS: 1200})
+			}
 			nr := 2
 			if tier == "thorough" {
 				nr = 4
@@ -131,6 +138,15 @@ type caseSpec struct {
 	C2S   *flowSpec `json:"c2s,omitempty"`
 	S2C   *flowSpec `json:"s2c,omitempty"`
 	Conc  bool      `json:"conc,omitempty"` // direct driver: the two directions run on two goroutines
+	// Procs: which directions the ProcessorFactory returns a processor for: ""
+	// both, "c2s" request-only (nil for server-to-client), "s2c" response-only.
+	// A direction without a processor bypasses the gRPC layer, as h2.Config.Proxy
+	// does for nil processors.
+	Procs string `json:"procs,omitempty"`
+}
+
+func (c *caseSpec) hasProc(d int) bool {
+	return c.Procs == "" || c.Procs == dirName[d]
 }
 
 const grpcCT = "application/grpc"
@@ -398,12 +414,24 @@ func execDirect(c *caseSpec) *obs {
 	sinks := [2]*sinkRec{{evs: make([]sinkEv, 0, 8)}, {evs: make([]sinkEv, 0, 8)}}
 	var procs [2]*procRec
 	factory := mgrpc.AsStreamProcessorFactory(func(_ *url.URL, server, client mgrpc.Processor) (mgrpc.Processor, mgrpc.Processor) {
-		procs[0] = &procRec{dest: server}
-		procs[1] = &procRec{dest: client}
-		return procs[0], procs[1]
+		var p0, p1 mgrpc.Processor
+		if c.hasProc(0) {
+			procs[0] = &procRec{dest: server}
+			p0 = procs[0]
+		}
+		if c.hasProc(1) {
+			procs[1] = &procRec{dest: client}
+			p1 = procs[1]
+		}
+		return p0, p1
 	})
 	cToS, sToC := factory(theURL, h2.NewProcessorsForVerif(sinks[0], sinks[1]))
 	ad := [2]h2.Processor{cToS, sToC}
+	for d := range ad {
+		if ad[d] == nil {
+			ad[d] = sinks[d] // "Bypasses any nil processors" (h2.Config.Proxy)
+		}
+	}
 
 	for d := 0; d < 2; d++ {
 		if f := c.flow(d); f != nil {
@@ -643,8 +671,14 @@ func judgeGRPC(v *verdicts, c *caseSpec, d int, o *obs, via string) {
 		break
 	}
 
-	// (1) what the processor was shown
+	// (1) what the processor was shown (if the factory installed one for this direction)
 	var msgs []procCall
+	if !c.hasProc(d) {
+		msgs = make([]procCall, len(rd.Payloads))
+		for i := range msgs {
+			msgs[i].Data = rd.Payloads[i]
+		}
+	}
 	for _, pc := range o.calls[d] {
 		if pc.Header {
 			continue
@@ -776,8 +810,18 @@ func judgeGRPC(v *verdicts, c *caseSpec, d int, o *obs, via string) {
 				eosSeen = "emptydata"
 			}
 		}
-		v.r.Class(fmt.Sprintf("%s|enc=%s|flags=%s|msgs=%s|cut=%s|eos-in=%s|eos-out=%s|%s", via, encSeen, flagClass(flags), countClass(len(fr)),
-			grpcx.CutClass(rd.Segs, len(rd.Wire), cuts), f.EOS, eosSeen, dirName[d]))
+		procs := "procs=" + c.Procs
+		if c.Procs == "" {
+			procs = "procs=both"
+		}
+		size := ""
+		for _, p := range rd.Payloads {
+			if len(p) > 1<<20 {
+				size = "|has>1MiB"
+			}
+		}
+		v.r.Class(fmt.Sprintf("%s|enc=%s|flags=%s|msgs=%s|cut=%s|eos-in=%s|eos-out=%s|%s|%s%s", via, encSeen, flagClass(flags), countClass(len(fr)),
+			grpcx.CutClass(rd.Segs, len(rd.Wire), cuts), f.EOS, eosSeen, dirName[d], procs, size))
 		v.r.Count("messages_compared", int64(len(fr)))
 		v.r.Count("payload_bytes_compared", int64(len(cat)))
 		v.r.Count("data_frames_fed", int64(nData))
@@ -1137,11 +1181,12 @@ type cutBlock struct {
 	TwoCut bool        `json:"two_cut"`
 	NRand  int         `json:"n_rand"`
 	Idx    int         `json:"idx"`
+	Procs  string      `json:"procs,omitempty"`
 }
 
 func (b *cutBlock) caseFor(cuts []int) *caseSpec {
 	f := &flowSpec{Enc: b.Enc, Msgs: b.Msgs, EOS: b.EOS, Cuts: cuts}
-	c := &caseSpec{Kind: "grpc", Via: "direct", PSeed: b.PSeed, CT: grpcCT}
+	c := &caseSpec{Kind: "grpc", Via: "direct", PSeed: b.PSeed, CT: grpcCT, Procs: b.Procs}
 	if b.Dir == 0 {
 		c.C2S = f
 	} else {
@@ -1248,6 +1293,9 @@ func cutBlocks(r *vh.Run) []cutBlock {
 			for dir := 0; dir < 2; dir++ {
 				b := cutBlock{Kind: "cut-block", Enc: ls.enc, Msgs: ls.msgs, EOS: eos, Dir: dir,
 					PSeed: uint64(r.Seed)*1000003 + uint64(si), NRand: r.Pick(12, 100), Idx: idx}
+				if idx%3 == 2 {
+					b.Procs = dirName[dir] // a processor for this direction only
+				}
 				idx++
 				rd := b.caseFor(nil).flow(dir).render(b.PSeed, dir)
 				b.TwoCut = len(rd.Wire) <= cap2
@@ -1308,10 +1356,91 @@ func randFlow(rng *rand.Rand, pseed uint64, dir int, maxBig int) *flowSpec {
 	case x == 0:
 	case x == 1 && n <= 3000:
 		f.Cuts = dribble(n)
+	case x == 2:
+		// frames of one size, as a sender with a fixed maximum frame size produces
+		// them: frame boundaries unrelated to message boundaries
+		f.Cuts = uniformCuts(n, []int{2, 7, 100, 1000, 16384}[rng.Intn(5)])
 	default:
 		f.Cuts = forcedCuts(rng, rd.Segs, n)
 	}
 	return f
+}
+
+func uniformCuts(n, size int) []int {
+	for n/size > 6000 {
+		size *= 2
+	}
+	var cuts []int
+	for c := size; c < n; c += size {
+		cuts = append(cuts, c)
+	}
+	return cuts
+}
+
+func randProcs(rng *rand.Rand) string {
+	return []string{"", "", "c2s", "s2c"}[rng.Intn(4)]
+}
+
+// largeCase: a message above 1 MiB (gRPC's default receive limit is 4 MiB) with
+// small messages before and after it, cut into frames whose boundaries are
+// unrelated to the message boundaries (fixed frame sizes), aligned with them, or
+// PRNG-chosen.
+func largeCase(r *vh.Run, idx int) *caseSpec {
+	rng := r.Rng("c11-large", idx)
+	c := &caseSpec{Kind: "grpc", Via: "direct", PSeed: rng.Uint64(), CT: grpcCT, Procs: randProcs(rng)}
+	dir := rng.Intn(2)
+	f := &flowSpec{Enc: encs[rng.Intn(len(encs))]}
+	small := []int{0, 1, 5, 14, 100, 70000}
+	bigs := []int{1100000, 1500000, 2500000}
+	if r.Thorough() {
+		bigs = append(bigs, 4200000)
+	}
+	for k := rng.Intn(3); k > 0; k-- {
+		f.Msgs = append(f.Msgs, grpcx.Msg{Size: small[rng.Intn(5)], Flag: rng.Intn(2) == 0})
+	}
+	f.Msgs = append(f.Msgs, grpcx.Msg{Size: bigs[rng.Intn(len(bigs))], Flag: rng.Intn(2) == 0})
+	for k := 1 + rng.Intn(3); k > 0; k-- {
+		f.Msgs = append(f.Msgs, grpcx.Msg{Size: small[rng.Intn(len(small))], Flag: rng.Intn(2) == 0})
+	}
+	f.EOS = []string{"last", "empty", "trailers"}[rng.Intn(3)]
+	rd := f.render(c.PSeed, dir)
+	n := len(rd.Wire)
+	switch rng.Intn(4) {
+	case 0:
+		f.Cuts = forcedCuts(rng, rd.Segs, n)
+	case 1: // aligned: message boundaries plus fixed-size frames inside the messages
+		set := map[int]bool{}
+		for _, sg := range rd.Segs {
+			if sg.Start > 0 {
+				set[sg.Start] = true
+			}
+			for x := sg.Start + 16384; x < sg.End; x += 16384 {
+				set[x] = true
+			}
+		}
+		for x := range set {
+			f.Cuts = append(f.Cuts, x)
+		}
+		sort.Ints(f.Cuts)
+	default:
+		f.Cuts = uniformCuts(n, []int{16384, 16384, 65535, 9973, 1 << 20}[rng.Intn(5)])
+	}
+	if dir == 0 {
+		c.C2S = f
+	} else {
+		c.S2C = f
+	}
+	return c
+}
+
+func runLarge(r *vh.Run, child int) {
+	n := r.Pick(24, 120)
+	for i := 0; i < n; i++ {
+		c := largeCase(r, child*100000+i)
+		r.Case(c)
+		checkCase(r, c, nil)
+		c.C2S, c.S2C = nil, nil // release the rendered megabytes
+	}
 }
 
 func randCase(r *vh.Run, stream string, idx int, relay bool) *caseSpec {
@@ -1334,6 +1463,7 @@ func randCase(r *vh.Run, stream string, idx int, relay bool) *caseSpec {
 		c.S2C = randFlow(rng, c.PSeed, 1, maxBig)
 		c.Conc = !relay && rng.Intn(3) == 0
 	}
+	c.Procs = randProcs(rng)
 	return c
 }
 
@@ -1467,6 +1597,9 @@ func run(r *vh.Run, batch string) {
 	case strings.HasPrefix(batch, "relay-"):
 		child, _ := strconv.Atoi(batch[6:])
 		runRelay(r, child)
+	case strings.HasPrefix(batch, "large-"):
+		child, _ := strconv.Atoi(batch[6:])
+		runLarge(r, child)
 	}
 }
 
